@@ -7,7 +7,7 @@ From Coq Require Import List ZArith Bool Arith Lia.
 From HV Require Import Model.Push Proofs.PushBase.
 Import ListNotations.
 
-Ltac sproj := cbn [ids table caches resp sigs polls chans works sigch accepted delivered
+Ltac sproj := cbn [fixed ids table caches resp sigs polls chans works sigch accepted delivered
                    set_ids set_table set_caches set_resp set_sigs set_polls set_chans set_works
                    set_sigch set_accepted set_delivered set_poll set_work spawn_hb add_work close_sig] in *.
 
@@ -20,7 +20,7 @@ Ltac snoc_cases H :=
   apply nth_error_snoc in H; destruct H as [(H1 & H)|(H1 & H2)]; [|subst].
 
 (* waiting or stale *)
-Definition wos (pc : lpc) : Prop := pc = LWait \/ pc = LDone RTimeout.
+Definition wos (pc : lpc) : Prop := pc = LWait \/ pc = LTimedOut \/ pc = LDone RTimeout.
 
 Definition nohold (ws : list work) (r : nat) : Prop :=
   forall w wk sb, nth_error ws w = Some wk -> wsub wk = Some sb -> sresp sb <> r.
@@ -48,7 +48,7 @@ Record Inv1 (s : state) : Prop := {
       pid pl1 = pid pl2 -> poll_active pl1 = true -> poll_active pl2 = true -> p1 = p2
 }.
 
-Lemma Inv1_init : Inv1 init.
+Lemma Inv1_init b : Inv1 (init_of b).
 Proof.
   constructor; cbn; intros; try discriminate; try reflexivity.
   - destruct w; discriminate.
@@ -58,7 +58,7 @@ Qed.
 
 Lemma wos_not (pc : lpc) : wos pc -> pc <> LPopOld /\ pc <> LPopSig /\ pc <> LSend /\ pc <> LUpsert /\ pc <> LRecv
                                    /\ (forall sb, pc <> LSending sb).
-Proof. intros [->| ->]; repeat split; try discriminate; intros; discriminate. Qed.
+Proof. intros [->|[->| ->]]; repeat split; try discriminate; intros; discriminate. Qed.
 
 (* a registered responder is not popped, a popped one is not registered *)
 Lemma held_not_reg s : Inv1 s -> forall w wk sb, nth_error (works s) w = Some wk -> wsub wk = Some sb ->
@@ -403,14 +403,14 @@ Proof.
 Qed.
 
 Lemma pc_req_wos chs p id pc : wos pc -> pc_req chs p id pc.
-Proof. intros [->| ->]; exact I. Qed.
+Proof. intros [->|[->| ->]]; exact I. Qed.
 
-Lemma not_wos_LPopOld : ~ wos LPopOld. Proof. intros [H|H]; discriminate. Qed.
-Lemma not_wos_LPopSig : ~ wos LPopSig. Proof. intros [H|H]; discriminate. Qed.
-Lemma not_wos_LSend : ~ wos LSend. Proof. intros [H|H]; discriminate. Qed.
-Lemma not_wos_LUpsert : ~ wos LUpsert. Proof. intros [H|H]; discriminate. Qed.
-Lemma not_wos_LRecv : ~ wos LRecv. Proof. intros [H|H]; discriminate. Qed.
-Lemma not_wos_LSending sb : ~ wos (LSending sb). Proof. intros [H|H]; discriminate. Qed.
+Lemma not_wos_LPopOld : ~ wos LPopOld. Proof. intros [H|[H|H]]; discriminate. Qed.
+Lemma not_wos_LPopSig : ~ wos LPopSig. Proof. intros [H|[H|H]]; discriminate. Qed.
+Lemma not_wos_LSend : ~ wos LSend. Proof. intros [H|[H|H]]; discriminate. Qed.
+Lemma not_wos_LUpsert : ~ wos LUpsert. Proof. intros [H|[H|H]]; discriminate. Qed.
+Lemma not_wos_LRecv : ~ wos LRecv. Proof. intros [H|[H|H]]; discriminate. Qed.
+Lemma not_wos_LSending sb : ~ wos (LSending sb). Proof. intros [H|[H|H]]; discriminate. Qed.
 #[export] Hint Resolve not_wos_LPopOld not_wos_LPopSig not_wos_LSend not_wos_LUpsert not_wos_LRecv not_wos_LSending : wosdb.
 
 Lemma Inv1_poll_step s p pl t s' :
@@ -507,8 +507,21 @@ Proof.
     set (s1 := set_poll s p (pid pl) (LDone RTimeout)).
     assert (I1 : Inv1 s1).
     { eapply (Inv1_pc s s1 p pl (LDone RTimeout)); eauto; try reflexivity; try (intros _; unfold poll_active; rewrite H; reflexivity); cbn; auto;
-        try discriminate. left. right. reflexivity. }
+        try discriminate. left. right. right. reflexivity. }
     eapply (Inv1_snoc s1 _ (WHb (pid pl) (length (sigch s)) HbUpsert)); eauto; reflexivity.
+  - (* timer (fixed) *)
+    eapply (Inv1_pc s _ p pl LTimedOut); eauto; try reflexivity; try (intros _; unfold poll_active; rewrite H; reflexivity);
+      try exact I.
+    left. right. left. reflexivity.
+  - (* withdraw (fixed) *)
+    destruct (i_reg s HI _ _ H0) as (plr & A & B & C & D & E).
+    set (s1 := set_resp s (fupd (resp s) (pid pl) None)).
+    assert (I1 : Inv1 s1) by (eapply (Inv1_unreg s s1 (pid pl)); eauto; reflexivity).
+    set (s2 := set_poll s1 p (pid pl) (LDone RTimeout)).
+    assert (I2 : Inv1 s2).
+    { eapply (Inv1_pc s1 s2 p pl (LDone RTimeout)); eauto; try reflexivity; cbn; auto; try discriminate.
+      left. right. right. reflexivity. }
+    eapply (Inv1_snoc s2 _ (WHb (pid pl) (length (sigch s)) HbUpsert)); eauto; reflexivity.
 Qed.
 
 Lemma Inv1_work_step s w wk t s' :
